@@ -43,6 +43,22 @@ SEEDS = [
   {'C03': 'NOT detected (exit 0): the change is inside the fixpoint loop body, which rule A1 abstracts; engine provenance is listed under not_covered', 'C10': 'not affected'}),
  ('C03-2', '/tmp/wt_C03/_out/2', 'C03', '`trusting previous` in block k with the missing fact supplied by block k+1',
   {'C03': 'VIOLATION datalog::origin::TrustedOrigins::from_scopes (ghost assertion of the Previous arm)', 'C04': 'VIOLATION same obligation'}),
+ ('C06-1', '/tmp/wt_C06/_out/1', 'C06', 'exactly i64::MIN / -1 (checked_div replaced by an explicit zero test + plain division)',
+  {'C06': 'VIOLATION datalog::expression::Binary::evaluate::ensures.div_overflow and the division side condition [i / j]'}),
+ ('C06-2', '/tmp/wt_C06/_out/2', 'C06', 'a closure parameter that shadows a bound variable together with an EMPTY set / array / map (shadowing test moved into the per-element binding)',
+  {'C06': 'UNDECIDED (exit 2): the per-item rewrite of the shadowing expression loses its anchor; closure evaluation is listed under not_covered; NOT detected'}),
+ ('C10-1', '/tmp/wt_C10/_out/1', 'C10', 'a run that hits a budget (iterations not accumulated on the early-return paths), then a retry with authorize / query',
+  {'C10': 'UNDECIDED (exit 2): the mutation restructures the `let res = loop { break .. }` shape the loop contract is attached to (lost anchor); NOT detected'}),
+ ('C10-2', '/tmp/wt_C10/_out/2', 'C10', 'a slow but successful check in a block >= 1 (clock read only after a non-matching query)',
+  {'C10': 'NOT detected (exit 0): wall-clock time is an uninterpreted input of the contracts (listed under not_covered); patch no longer applies after fix 09cf9d5'}),
+ ('C19-1', '/tmp/wt_C19/_out/1', 'C19', 'biscuit_sealed_size computed by arithmetic (+32) while the last block was appended with a secp256r1 key (70-72 byte DER seal)',
+  {'C19': 'UNDECIDED (exit 2): the new body calls Rust API functions that are not among the stubs of unit capi (front-end rejection); NOT detected'}),
+ ('C19-2', '/tmp/wt_C19/_out/2', 'C19', 'biscuit_block_context(block_index == block_count): swap_remove panics inside the extern "C" function',
+  {'C19': 'VIOLATION biscuit-capi::lib::biscuit_block_context::call-pre(vstd vec)[biscuit.0.context().swap_remove(block_index)]', 'history': 'first run NOT detected (function not under contract); caught after biscuit_block_context was added to unit capi'}),
+ ('C04-1', '/tmp/wt_C04/_out/1', 'C04', 'a `check all` whose body matches nothing in its scoped world (check_match_all returns true vacuously)',
+  {'C04': 'NOT detected (exit 0): Rule::check_match_all is inside the engine, which enters the contracts as an oracle (listed under not_covered)'}),
+ ('C04-2', '/tmp/wt_C04/_out/2', 'C04', 'an authorizer-level scope (AuthorizerBuilder::scope) and a policy without its own `trusting` annotation',
+  {'C04': 'VIOLATION token::authorizer::Authorizer::authorize_inner (precondition of lemma_tset at the policy query: the trusted set handed to the engine is not the specification one)', 'history': 'first run NOT detected (authorize_inner was an assumed callee); caught after unit authz put the decision composition under contract'}),
 ]
 only = sys.argv[1:] 
 for sid, src, prop, needs, det in SEEDS:
